@@ -3,6 +3,7 @@ from __future__ import annotations
 
 from sim.net import World
 from sim import refdecode as R
+from sim import codec
 from . import common as C
 from . import decoding as D
 from .common import viol
@@ -84,7 +85,9 @@ def make_case(tier, seed, index):
     # device quirks that must not influence any value: a wrong Modbus/TCP message length field (GoodWe devices are
     # known for it, the library ignores the field) and, on ES, a settings block of another length
     quirks = {"mbap_len": MBAP_LEN[index % len(MBAP_LEN)] if tr == "tcp" else None,
-              "es_settings_len": ES_SETTINGS_LENS[index % len(ES_SETTINGS_LENS)] if fam == "ES" else None}
+              "es_settings_len": ES_SETTINGS_LENS[index % len(ES_SETTINGS_LENS)] if fam == "ES" else None,
+              # ... and an application that runs the library's logger at DEBUG level
+              "debug_log": index % 11 == 5}
     if fill == "step":
         total = STEP_POLLS[tier]
         mult = 40503 if total < 65536 else 1
@@ -335,6 +338,8 @@ def run_case(case, oracle="plain"):
     status, _ = C.run_world(world, main())
     if status != "ok":
         violations.append(viol(f"{pid}:hang:{fam}", f"polling did not terminate: {status}"))
+    if oracle == "plain" and fam in ("ET", "DT"):
+        _below_window(gp, inv, case, violations, stats)
     world.events = []
     world.log("summary", fam, var, tr, case["fill"], stats["polls"], stats["values_checked"], stats.get("hash"),
               len(violations),
@@ -342,8 +347,36 @@ def run_case(case, oracle="plain"):
     sigs = [(fam, var, tr, case["fill"], case["seed"] if case["fill"] != "step" else None, k) for k in case["ks"]]
     return C.package(world, case, violations, sigs[0], True,
                      {"polls": stats["polls"], "values_checked": stats["values_checked"],
-                      "single_reads": stats["single_reads"], "outside_window_skipped": stats.get("outside_window", 0)},
+                      "single_reads": stats["single_reads"], "outside_window_skipped": stats.get("outside_window", 0),
+                      "below_window_decodes": stats.get("below_window", 0)},
                      sigs=sigs)
+
+
+def _below_window(gp, inv, case, violations, stats):
+    """Block start addresses: a response whose block starts ABOVE a sensor's register contains none of the sensor's
+    bytes - decoding the sensor from it must give no value (ProtocolResponse + Sensor.read, the public pieces the
+    inverter classes map their tables with)."""
+    import random
+    rnd = random.Random(case["seed"] * 7919 + case["ks"][0])
+    sensors = [x for x in inv.sensors() if type(x).__name__ in R.WIDTH and x.offset > 0]
+    for sn in rnd.sample(sensors, min(6, len(sensors))):
+        delta = rnd.choice([1, 2, 3, 5, 8, 60])
+        count = rnd.choice([4, 8, 16])
+        payload = bytes(rnd.getrandbits(8) | 1 for _ in range(2 * count))
+        cmd = gp.ModbusRtuReadCommand(0xF7, sn.offset + delta, count)
+        body = bytes((0xF7, 3, 2 * count)) + payload
+        raw = b"\xaa\x55" + body + codec.crc_bytes(body)
+        stats["below_window"] = stats.get("below_window", 0) + 1
+        try:
+            v = sn.read(gp.ProtocolResponse(raw, cmd))
+        except Exception:  # noqa
+            continue
+        if v is not None:
+            violations.append(viol(f"C12:below-window:{type(sn).__name__}",
+                                   f"{sn.id_} (register {sn.offset}) decoded as {v!r} from a response whose block "
+                                   f"starts at register {sn.offset + delta} (count {count}): none of those bytes are "
+                                   f"the sensor's own"))
+            return
 
 
 def _show(ref):
